@@ -1139,7 +1139,7 @@ func ruleR06_3(p *Program, r *Report) {
 	cl := p.Method(gzipRel, "Writer", "Close")
 	if cl != nil {
 		got := map[string]string{}
-		for _, c := range allCalls(cl) {
+		for _, c := range regionAllCalls(cl) {
 			f := c.Common().StaticCallee()
 			if f == nil || f.Name() != "PutUint32" {
 				continue
@@ -1159,7 +1159,7 @@ func ruleR06_3(p *Program, r *Report) {
 	zc := p.Method(zlibRel, "Writer", "Close")
 	if zc != nil {
 		ok := false
-		for _, c := range allCalls(zc) {
+		for _, c := range regionAllCalls(zc) {
 			f := c.Common().StaticCallee()
 			if f == nil || f.Name() != "PutUint32" || !strings.Contains(f.String(), "bigEndian") {
 				continue
@@ -1176,7 +1176,7 @@ func ruleR06_3(p *Program, r *Report) {
 	zr := p.Method(zlibRel, "reader", "Read")
 	if zr != nil {
 		ok := false
-		for _, c := range allCalls(zr) {
+		for _, c := range regionAllCalls(zr) {
 			if f := c.Common().StaticCallee(); f != nil && f.Name() == "Uint32" && strings.Contains(f.String(), "bigEndian") {
 				ok = true
 			}
@@ -1766,4 +1766,13 @@ func ruleR02_8(p *Program, r *Report) {
 	if n < 2 {
 		r.Undecided("R02.8", "sites", "-", "at least two same-buffer copies (match copy, window slide)", "found "+itoa(n))
 	}
+}
+
+// regionAllCalls: the calls of fn and of the same-package helpers its receiver is passed to.
+func regionAllCalls(fn *ssa.Function) []ssa.CallInstruction {
+	var out []ssa.CallInstruction
+	for _, rf := range recvRegion(fn) {
+		out = append(out, allCalls(rf.fn)...)
+	}
+	return out
 }
